@@ -18,10 +18,15 @@
      item consumes something (any larger fuel gives the same answer); the
      zero-progress case, which the fuel exists for, is exhibited; in PER / OER a
      zero-progress item is bounded by the decoded count (<= 65536 per fragment);
-   - what the decoders accept is a value of the shape the type describes. *)
+   - what the decoders accept is a value of the shape the type describes;
+   - the four leaf functions that SKIP what an extensible type does not know
+     (ber_skip_length, uper_open_type_skip, oer_open_type_skip, xer_skip_unknown;
+     model Rt/SafetySkip.v, the end-of-contents reads of ber_skip_length written out
+     as indexed reads that can fail) never read at an index >= size, never report
+     more than size, need no fuel, and look at the counted octets only. *)
 From Coq Require Import ZArith List Bool.
 From A1 Require Import Base.Bytes Leaf.BerTL Leaf.BerTLProofs
-  Rt.Types Rt.Comb Rt.Der Rt.Uper Rt.Oer Rt.Safety Rt.SafetyFuel Rt.SafetyShape.
+  Rt.Types Rt.Comb Rt.Der Rt.Uper Rt.Oer Rt.Ext Rt.Safety Rt.SafetyFuel Rt.SafetyShape Rt.SafetySkip.
 Import ListNotations.
 Local Open Scope Z_scope.
 
@@ -217,3 +222,81 @@ Theorem C04_oer_accepts_well_shaped : forall (t : ty) (bs : list Z) (v : val) (r
   oer_dec t bs = Some (v, r) -> shape_ok t v = true.
 Proof. exact oer_dec_shape. Qed.
 Print Assumptions C04_oer_accepts_well_shaped.
+
+(* ---------------- skipping what an extensible type does not know ---------------- *)
+
+(* ber_skip_length (no stack limit from a codec context): a positive answer is within the buffer *)
+Theorem C04_ber_skip_length_in_bounds : forall (c : bool) (buf : list Z) (n : nat),
+  ber_skip_length c buf = SOk n -> (1 <= n <= length buf)%nat.
+Proof. exact ber_skip_length_in_bounds. Qed.
+Print Assumptions C04_ber_skip_length_in_bounds.
+
+(* ptr[0] and ptr[1] of the end-of-contents test are inside [0, size) whenever they are read *)
+Theorem C04_ber_skip_length_reads_in_bounds : forall (c : bool) (buf : list Z),
+  ber_skip_length c buf <> SOob.
+Proof. exact ber_skip_length_reads_in_bounds. Qed.
+Print Assumptions C04_ber_skip_length_reads_in_bounds.
+
+(* with the test in front of the recursive call (seeded/C04-2) the read is outside *)
+Theorem C04_ber_skip_length_early_eoc_test_refuted :
+  skip_loop_early (skip_length 3) 3 1 [0] = SOob /\ ber_skip_length true [128; 0] = SMore.
+Proof. exact early_eoc_test_reads_outside. Qed.
+Print Assumptions C04_ber_skip_length_early_eoc_test_refuted.
+
+(* recursion depth and loop count are bounded by the size: the model's fuel is never the answer,
+   and any larger fuel gives the same answer *)
+Theorem C04_ber_skip_length_total : forall (c : bool) (buf : list Z), ber_skip_length c buf <> SFuel.
+Proof. exact ber_skip_length_total. Qed.
+Print Assumptions C04_ber_skip_length_total.
+
+Theorem C04_ber_skip_length_any_fuel : forall (c : bool) (buf : list Z) (f : nat),
+  (length buf < f)%nat -> skip_length f c buf = ber_skip_length c buf.
+Proof. exact ber_skip_length_any_fuel. Qed.
+Print Assumptions C04_ber_skip_length_any_fuel.
+
+(* nothing behind the counted octets influences a positive answer *)
+Theorem C04_ber_skip_length_prefix_determined : forall (c : bool) (buf : list Z) (n : nat) (ext : list Z),
+  ber_skip_length c buf = SOk n -> ber_skip_length c (buf ++ ext) = SOk n.
+Proof. exact ber_skip_length_prefix_determined. Qed.
+Print Assumptions C04_ber_skip_length_prefix_determined.
+
+(* uper_open_type_skip (what the C does, std = false, and X.691, std = true): the rest is a suffix and
+   at least the length determinant is consumed *)
+Theorem C04_uper_open_skip_in_bounds : forall (bs r : list bool),
+  uper_open_skip bs = Some r -> exists a, bs = a ++ r /\ (8 <= length a)%nat.
+Proof. exact uper_open_skip_in_bounds. Qed.
+Print Assumptions C04_uper_open_skip_in_bounds.
+
+(* oer_open_type_skip = oer_fetch_length *)
+Theorem C04_oer_skip_in_bounds : forall (bs : list Z) (v : Z) (n : nat),
+  oer_skip bs = FOk v n -> (1 <= n <= length bs)%nat.
+Proof. exact oer_skip_in_bounds. Qed.
+Print Assumptions C04_oer_skip_in_bounds.
+
+Theorem C04_oer_skip_is_fetch_length : forall (bs : list Z) (v : Z) (r : list Z),
+  oer_fetch_length bs = Some (v, r) -> exists n, oer_skip bs = FOk v n /\ r = skipn n bs.
+Proof. exact oer_skip_is_fetch_length. Qed.
+Print Assumptions C04_oer_skip_is_fetch_length.
+
+Theorem C04_oer_open_skip_in_bounds : forall (bs r : list Z),
+  oer_open_skip bs = Some r -> exists a, bs = a ++ r /\ (1 <= length a)%nat.
+Proof. exact oer_open_skip_in_bounds. Qed.
+Print Assumptions C04_oer_open_skip_in_bounds.
+
+Theorem C04_oer_open_type_skip_in_bounds : forall bs v n,
+  oer_open_type_skip_m bs = FOk v n -> (1 <= n <= length bs)%nat.
+Proof. exact oer_open_type_skip_in_bounds. Qed.
+Print Assumptions C04_oer_open_type_skip_in_bounds.
+
+(* xer_skip_unknown: the depth counter never leaves the range its assert demands *)
+Theorem C04_xer_skip_depth : forall (t : xct) (depth r d : Z), 0 < depth -> xer_skip t depth = (r, d) ->
+  (r = 0 -> 0 < d) /\ (r = 1 \/ r = 2 -> d = 0) /\ (r = -1 -> d = depth) /\
+  (r = 0 \/ r = 1 \/ r = 2 \/ r = -1).
+Proof. exact xer_skip_depth. Qed.
+Print Assumptions C04_xer_skip_depth.
+
+Theorem C04_xer_skip_run_safe : forall (evs : list xct) (depth : Z) (k : nat) (r d : Z) (n : nat),
+  0 < depth -> xer_skip_run evs depth k = (r, d, n) ->
+  (k <= n <= k + length evs)%nat /\ (r = 0 -> 0 < d) /\ (r = 1 \/ r = 2 -> d = 0).
+Proof. exact xer_skip_run_safe. Qed.
+Print Assumptions C04_xer_skip_run_safe.
